@@ -155,35 +155,53 @@ def run(chk: Check, model):
     # BaseNode.__init_subclass__ replaces cls.step by no_weaktype(...)(cls.step): the wrapper must run the wrapped function once per call
     # (a second evaluation - also an abstract one, jax.eval_shape(lambda: fn(...)) - runs the Python body of an un-jitted step again)
     f_sub = model.func("node.BaseNode.__init_subclass__")
-    wraps = [n for n in ast.walk(f_sub.node) if isinstance(n, ast.Assign) and len(n.targets) == 1 and isinstance(n.targets[0], ast.Attribute) and n.targets[0].attr == "step"]
+    r_sub = SymEval(model).run_function(f_sub)
+    wraps = [e for e in r_sub.events if e.kind == "store_attr" and e.name == "cls.step"]
     chk.floor("C06.rebind", "class-level wrapping of step", len(wraps), 1)
     for w in wraps:
-        v = w.value
-        deco = v.func.func if isinstance(v, ast.Call) and isinstance(v.func, ast.Call) else None
-        dname = (deco.attr if isinstance(deco, ast.Attribute) else deco.id if isinstance(deco, ast.Name) else None)
-        cands = [q for q in model.functions if q.split(".")[-1] == dname and "." in q and model.functions[q].parent is None and not model.functions[q].cls] if dname else []
-        okw = len(cands) == 1 and isinstance(v, ast.Call) and len(v.args) == 1 and isinstance(v.args[0], ast.Attribute) and v.args[0].attr == "step"
+        v = w.term
+        deco = v[1] if v[0] == "call" and isinstance(v[1], tuple) and v[1][0] == "call" else None
+        dq = T.call_name(deco)[4:] if deco is not None and str(T.call_name(deco)).startswith("rex.") else None
+        okw = dq in model.functions and len(v[2]) == 1 and v[2][0] in (T.sym("cls.step"), T.mk_attr(T.sym("cls"), "step"))
         n_calls, bad = 0, []
         if okw:
-            fdec = model.functions[cands[0]]
+            fdec = model.functions[dq]
             chk.used(fdec.qualname)
-            # the innermost function taking (*args, **kwargs) is the wrapper; the wrapped function is the parameter of its parent
-            inner = [n for n in ast.walk(fdec.node) if isinstance(n, ast.FunctionDef) and n.args.vararg is not None and n.args.kwarg is not None]
-            outer = [n for n in ast.walk(fdec.node) if isinstance(n, ast.FunctionDef) and inner and any(c is inner[0] for c in n.body)]
-            okw = len(inner) == 1 and len(outer) == 1 and len(outer[0].args.args) == 1
+            # the decorator and the module-level functions it refers to; in there, the one function taking (*args, **kwargs) is the wrapper and the
+            # wrapped function is the enclosing functions' parameter that it calls with them
+            scope, todo = [], [fdec]
+            while todo:
+                f_ = todo.pop()
+                if any(f_ is g_ for g_ in scope):
+                    continue
+                scope.append(f_)
+                for n in ast.walk(f_.node):
+                    if isinstance(n, ast.Name) and isinstance(n.ctx, ast.Load) and f"{fdec.module}.{n.id}" in model.functions and len(scope) < 6:
+                        todo.append(model.functions[f"{fdec.module}.{n.id}"])
+            inner = [n for f_ in scope for n in ast.walk(f_.node) if isinstance(n, ast.FunctionDef) and n.args.vararg is not None and n.args.kwarg is not None]
+            inner = list({id(n): n for n in inner}.values())
+            okw = len(inner) == 1
             if okw:
-                fn = outer[0].args.args[0].arg
-                nested = {id(x) for d in ast.walk(inner[0]) if isinstance(d, (ast.Lambda, ast.FunctionDef, ast.For, ast.While, ast.ListComp, ast.GeneratorExp, ast.DictComp, ast.SetComp)) and d is not inner[0] for x in ast.walk(d) if x is not d}
-                for n in ast.walk(inner[0]):
-                    if isinstance(n, ast.Name) and n.id == fn and isinstance(n.ctx, ast.Load):
-                        call = [c for c in ast.walk(inner[0]) if isinstance(c, ast.Call) and c.func is n]
-                        if call and id(n) not in nested:
-                            n_calls += 1
-                        else:
-                            bad.append(n.lineno)
+                va, ka = inner[0].args.vararg.arg, inner[0].args.kwarg.arg
+                fwd = [c for c in ast.walk(inner[0]) if isinstance(c, ast.Call) and isinstance(c.func, ast.Name) and any(isinstance(a, ast.Starred) and isinstance(a.value, ast.Name) and a.value.id == va for a in c.args)
+                       and any(k.arg is None and isinstance(k.value, ast.Name) and k.value.id == ka for k in c.keywords)]
+                params = {a.arg for f_ in scope for d in ast.walk(f_.node) if isinstance(d, ast.FunctionDef) and d is not inner[0] for a in d.args.args}
+                fns = {c.func.id for c in fwd if c.func.id in params}
+                okw = len(fns) == 1
+                if okw:
+                    fn = next(iter(fns))
+                    nested = {id(x) for d in ast.walk(inner[0]) if isinstance(d, (ast.Lambda, ast.FunctionDef, ast.For, ast.While, ast.ListComp, ast.GeneratorExp, ast.DictComp, ast.SetComp)) and d is not inner[0] for x in ast.walk(d) if x is not d}
+                    body_nodes = [x for b_ in inner[0].body for x in ast.walk(b_)]  # (not its decorators: functools.wraps(fn) does not call fn)
+                    for n in body_nodes:
+                        if isinstance(n, ast.Name) and n.id == fn and isinstance(n.ctx, ast.Load):
+                            call = [c for c in body_nodes if isinstance(c, ast.Call) and c.func is n]
+                            if call and id(n) not in nested:
+                                n_calls += 1
+                            else:
+                                bad.append(n.lineno)
         chk.add("C06.rebind", "the class-level step wrapper runs the wrapped step exactly once per call", bool(okw) and n_calls == 1 and not bad,
                 f"the wrapper installed around cls.step calls the wrapped function {n_calls} time(s) directly and refers to it {len(bad)} more time(s) (lines {bad}): "
-                "every further evaluation runs the step body again", chk.loc(f_sub, w))
+                "every further evaluation runs the step body again", chk.loc(f_sub, w.node))
     # ------------------------------------------------------------------ who may replace the step chain of a wrapper
     # Only warmup may rebind async_step, only to the jit / AOT-compiled form of the same method, and only when the caller asked
     # for it (jit_step): with jit_step=False the Python body of node.step -- its side effects -- must run on every tick.
@@ -281,20 +299,28 @@ def run(chk: Check, model):
         # which slots are passed over: the supervisor's slot and the slots of exactly the kinds the user asked to skip
         el_ = slot_elem(cv.run_generation)
         name_ = T.mk_index(el_, T.ZERO) if el_ is not None else None
-        ins_ = [a for a in flow.bool_atoms(region, []) if a[0] == "in" and a[1] == name_]
-        oks = len(ins_) == 1
+        ats_ = [a for a in flow.bool_atoms(region, []) if name_ is not None and (a[0] == "in" and a[1] == name_ or a[0] == "eq" and name_ in a[1])]
+        items = T.mk_call("timings.slots.items", [])
+
+        def _kind_comp(c):
+            # [n for n, v in timings.slots.items() if v.kind in skip]
+            if not (c[0] == "comp" and c[1] == "list" and len(c[3]) == 1 and c[3][0][1] == items):
+                return False
+            els = [x for x in T.walk(c[2]) if x[0] == "elem" and x[1] == items]
+            return bool(els) and c[2] == T.mk_index(els[0], T.ZERO) and tuple(c[4]) == (("in", T.mk_attr(T.mk_index(els[0], T.ONE), "kind"), S("skip")),)
+        kinds_ = {"sup": [a for a in ats_ if a[0] == "eq" and S("supervisor_slot") in a[1]], "skip": [a for a in ats_ if a[0] == "in" and a[2] == S("skip")],
+                  "comp": [a for a in ats_ if a[0] == "in" and _kind_comp(a[2])]}
+        # every one of the three tests keeps a slot out, nothing else about the slot's name does, and without a skip list only the supervisor's is
+        none_ = T.eq(S("skip"), T.NONE, numeric=False)
+        oks = all(len(v) == 1 for v in kinds_.values()) and len(ats_) == 3 and flow.implies(region, T.mk_not(kinds_["sup"][0])) \
+            and all(flow.implies(T.assume(region, none_, False), T.mk_not(kinds_[k][0])) for k in ("skip", "comp"))
         if oks:
-            sk = ins_[0][2]
-            none_ = T.eq(S("skip"), T.NONE, numeric=False)
-            off, on = T.assume(sk, none_, True), T.assume(sk, none_, False)
-            comps = [x for x in T.walk(on) if x[0] == "comp"]
-            oks = off == ("list", ()) and len(comps) == 1
-            if oks:
-                c = comps[0]
-                items = T.mk_call("timings.slots.items", [])
-                els = [x for x in T.walk(c[2]) if x[0] == "elem" and x[1] == items]
-                oks = c[1] == "list" and len(c[3]) == 1 and c[3][0][1] == items and bool(els) and c[2] == T.mk_index(els[0], T.ZERO) \
-                    and tuple(c[4]) == (("in", T.mk_attr(T.mk_index(els[0], T.ONE), "kind"), S("skip")),) and on in (T.mk_call("+", [c, S("skip")]), c, T.add(c, S("skip")))
+            rest = T.assume(T.assume(region, kinds_["sup"][0], False), none_, True)
+            oks = not any(a in ats_ for a in flow.bool_atoms(rest, []))
+            rest2 = region
+            for v in kinds_.values():
+                rest2 = T.assume(rest2, v[0], False)
+            oks = oks and not any((a[0] == "in" and a[1] == name_) or (a[0] == "eq" and name_ in a[1]) for a in flow.bool_atoms(rest2, []))
         chk.add("C06.count", "_run_generation: only the supervisor's slot and the slots of the skipped kinds are passed over", bool(oks),
                 f"a slot is passed over under {T.show(T.mk_not(region))[:260]}, expected slot == supervisor_slot or slot in [n for n, v in timings.slots.items() if v.kind in skip] (+ skip)", chk.loc(f_gen, cond.node))
         f_gi = model.func("graph.Graph.__init__")
